@@ -3281,6 +3281,59 @@ stoInit(void)
 /*
  * Added specifically for use with LIP big integers
  */
+#ifdef ALDOR_VERIF
+/*
+ * Verification hook: ALDOR_VERIF_GC=k:j[:lo:hi] forces a collection at every
+ * allocation whose ordinal n satisfies lo <= n < hi and n % k == j, at the
+ * point where an out-of-pages collection could have happened.  While set,
+ * washing of new/freed pieces cannot be switched off.  ALDOR_VERIF_GC_LOG=file
+ * appends the counters at exit.
+ */
+static int		verifGcState = 0;	/* 0 unread, 1 off, 2 on */
+static unsigned long	verifGcK = 0, verifGcJ = 0, verifGcLo = 0, verifGcHi = ~0UL;
+static unsigned long	verifGcAllocs = 0, verifGcForced = 0;
+static char		*verifGcLogName = 0;
+
+static void
+verifGcAtExit(void)
+{
+	FILE *f;
+	if (!verifGcLogName) return;
+	f = fopen(verifGcLogName, "a");
+	if (!f) return;
+	fprintf(f, "allocs=%lu forced=%lu gcbytes=%lu\n",
+		verifGcAllocs, verifGcForced, (unsigned long) stoBytesGc);
+	fclose(f);
+}
+
+static void
+verifGcInit(void)
+{
+	char *s = getenv("ALDOR_VERIF_GC");
+	verifGcState = 1;
+	verifGcLogName = getenv("ALDOR_VERIF_GC_LOG");
+	if (verifGcLogName) atexit(verifGcAtExit);
+	if (s && sscanf(s, "%lu:%lu:%lu:%lu", &verifGcK, &verifGcJ,
+			&verifGcLo, &verifGcHi) >= 2 && verifGcK > 0) {
+		verifGcState = 2;
+		stoMustWash  = true;
+	}
+}
+
+static void
+verifGcStep(void)
+{
+	unsigned long n;
+	if (verifGcState == 0) verifGcInit();
+	n = verifGcAllocs++;
+	if (verifGcState != 2) return;
+	if (n < verifGcLo || n >= verifGcHi || n % verifGcK != verifGcJ) return;
+	if (!stoMustTag || gcLevel == StoCtl_GcLevel_Never) return;
+	verifGcForced++;
+	stoGc();
+}
+#endif /* ALDOR_VERIF */
+
 MostAlignedType *
 stoCAlloc(unsigned code, ULong nbytes)
 {
@@ -3305,6 +3358,9 @@ stoAlloc(unsigned code, ULong nbytes)
 	code = getMemoryClimate();
 #endif
 
+#ifdef ALDOR_VERIF
+	verifGcStep();
+#endif
 	if (nbytes==0) return NULL; /* TTT */
 	if (nbytes <= FixedSizeMax)
 	{
@@ -4381,6 +4437,10 @@ stoCtl(int cmd, ...)
 		break;
 	case StoCtl_Wash:
 		stoMustWash   = va_arg(argp, Bool);
+#ifdef ALDOR_VERIF
+		if (verifGcState == 0) verifGcInit();
+		if (verifGcState == 2) stoMustWash = true;
+#endif
 		break;
 	default:
 		rc = -1;
